@@ -407,9 +407,10 @@ class Iter:
     expression, zip/enumerate/map objects).  A second pass yields nothing."""
 
     def __init__(self, seq):
-        self.seq = seq
+        self.seq = seq  # what is still to come (a consumer that stops early leaves the remainder here, see models.iter_advance)
         self.consumed = False
         self.uid = next(_uid)
+        self.source = None  # (upstream Iter, its sequence at creation): a generator expression pulling from another one-shot iterator
 
 
 def snapshot(v, memo=None):
@@ -453,6 +454,12 @@ def snapshot(v, memo=None):
         return c
     elif hasattr(v, "__pyvc_snapshot__"):
         c = v.__pyvc_snapshot__(memo)
+    elif isinstance(v, Iter):  # a one-shot iterator HAS state (what is still to come): the old state keeps its own
+        c = Iter(None)
+        c.uid, c.consumed, c.source = v.uid, v.consumed, v.source
+        memo[i] = c
+        c.seq = snapshot(v.seq, memo)
+        return c
     elif isinstance(v, tuple):
         if type(v) is not tuple:  # namedtuple (e.g. SWCNames): immutable configuration, kept as it is
             return v
